@@ -331,7 +331,8 @@ PROPS["C18"] = dict(
                "view, XML round trip); for the Linux snapshots the set P of paths the loader consults is recorded through a libc seam "
                "and every single removal from P (bound 1) and, thorough, every pair under sys/devices/system (bound 2) is replayed "
                "against the real loader. Removing a path outside P cannot change behaviour, so bound 1 is complete for single removals "
-               "from the whole snapshot.",
+               "from the whole snapshot. Removals are also enumerated by path class (every instance of cpuN/topology/die_id at once - what a "
+               "kernel without the attribute produces): every class, every pair of classes, and (thorough) every triple for small class sets.",
     technique="environment-deviation-bounded exhaustive exploration of the real Linux/x86 discovery code over a libc file-system seam (openat/fstatat/faccessat/readlinkat/readdir interposition), independent well-formedness oracle",
     design_ref="DESIGN.md 5 (C18), 2.5",
     stages=[simple("base", "c18_snapshots", parts=32, deadline={"quick": 240, "thorough": 3000},
@@ -341,10 +342,10 @@ PROPS["C18"] = dict(
     explanation="Fault sequences are enumerated, not sampled: the seam answers ENOENT for the chosen paths and removes them from directory "
                 "listings (a directory hides its subtree). Every faulted load must fail cleanly or give a well-formed topology with no "
                 "assertion, signal, hang or sanitizer report.",
-    bounds={"quick": "base: default + 4 uniform filters + 6 single flags + 9 single (type, KEEP_NONE) deviations; faults: bound 1 on snapshots with at most 2500 consulted paths, under the default configuration and with every type kept",
-            "thorough": "base: additionally flag pairs and 2 filter+flag combinations; faults: bound 1 on every snapshot under both configurations, bound 2 under sys/devices/system when at most 200 such paths"},
+    bounds={"quick": "base: default + 4 uniform filters + 6 single flags + 9 single (type, KEEP_NONE) deviations; faults: bound 1 on snapshots with at most 2500 consulted paths, under the default configuration and with every type kept; path classes: bound 1 on every snapshot, bound 2 (all pairs of classes) on snapshots with at most 60 classes",
+            "thorough": "base: additionally flag pairs and 2 filter+flag combinations; faults: bound 1 on every snapshot under both configurations, bound 2 under sys/devices/system when at most 200 such paths; path classes: bounds 1 and 2 on every snapshot (<= 400 classes), bound 3 on snapshots with at most 40 classes"},
     assumptions=COMMON_ASSUMPTIONS + ["a removal is modelled as ENOENT for the path and everything below it; short reads and EIO are not injected",
-                                      "numbered directories (cpu12, node3, index0) are not removed (the property's alphabet)",
+                                      "numbered directories (cpu12, node3, index0) are not removed (the property's alphabet); a path class that has a numbered directory among its consulted instances is left out",
                                       "distinct faulted outcomes are counted per worker"],
 )
 
